@@ -68,8 +68,15 @@ Print Assumptions C17_m2m_refines.
 
 Example C17_m2m_refines_inhabited :
   m_no_bad_index (m2m_trace [] [MNew [(0,1);(0,2);(3,1)]; MOp 0 true (MReplace 1 2); MNewFrom 0 true;
-                                MOp 0 false (MDelitem 3); MUpdFrom 1 true 0 false; MOp 1 false (MRemove 9 9)]).
+                                MOp 0 false (MDelitem 3); MUpdFrom 1 true 0 false; MOp 1 false (MRemove 9 9);
+                                MEq 0 true 1 false; MEq 1 false 1 false]).
 Proof. repeat constructor; simpl; discriminate. Qed.
+
+(* == on ManyToMany (python's dict == over set values) is exactly equality of the pair sets *)
+Theorem C17_m2m_eq_iff_same_pairs : forall d1 d2, SWF d1 -> SWF d2 ->
+  (sd_eqb d1 d2 = true <-> forall a b, rel_of d1 a b <-> rel_of d2 a b).
+Proof. exact sd_eqb_true. Qed.
+Print Assumptions C17_m2m_eq_iff_same_pairs.
 
 Example C17_m2m_inhabited :
   exists m, In m (m2m_run [MNew [(0,1);(0,2);(3,1)]; MOp 0 true (MReplace 1 2); MNewFrom 0 true;
